@@ -7,6 +7,7 @@ import (
 
 	"github.com/weedbox/pokerface"
 	pt "github.com/weedbox/pokertable"
+	"verif.local/simrt"
 )
 
 // tableMon: observation of one table and the monitors of C01..C15 that judge it.
@@ -71,6 +72,8 @@ type handRec struct {
 	recordUnreliable bool // some call for this hand was not atomic: the harness record may lag the engine
 	phaseFrom        int64
 	beWagers         map[int]*[4]int // per game index: wager steps the backend applied (all, calls, checks, folds)
+	settledFinal     bool            // the settlement verdict has been taken
+	pendingSettle    []CapturedViol
 }
 
 type blindUpd struct {
@@ -96,7 +99,6 @@ type tableMon struct {
 	// ledger
 	in, out      int64
 	topups       []*topup
-	pendingTopup map[string]*topup // per calling task: membership calls of different tasks overlap
 	ledgerOff    string
 	lastAuditSum int64
 
@@ -110,6 +112,8 @@ type tableMon struct {
 	lastExtAtMs        int64
 	lastExtD           int64
 	extCalls           []*extCall
+	turnOwn            bool
+	snapByTask         map[string]turnSnap
 	extensions         map[string]extRec
 	turnStale          int64
 	lastDeadlineSeen   int64
@@ -136,6 +140,8 @@ type tableMon struct {
 	reserved            map[string]int
 	extTainted          string
 	panicsSeen          int
+	leaveNamed          map[string]int
+	pendingSettleHand   *handRec
 	leavers             map[string]bool
 	obligedOpen         bool // since the last settlement: >= 2 seated-in players with chips and no pause condition, continuously
 	obligedPause        bool // since the last settlement: pause condition, continuously
@@ -174,6 +180,20 @@ func (m *tableMon) onCreated(t *pt.Table, pre []pt.JoinPlayer, startBreak bool) 
 
 // ---- admin bookkeeping ---------------------------------------------------------------------------
 
+// lockQueueProbes: coverage of "the engine's own step waits for the engine lock" situations.
+func (m *tableMon) lockQueueProbes() {
+	for _, fn := range m.c.Sch.LockWaiters() {
+		switch {
+		case strings.Contains(fn, "settleGame"):
+			m.c.Probe("settlement_waits_for_engine_lock")
+		case strings.Contains(fn, "resetTableForNextGame"):
+			m.c.Probe("reset_waits_for_engine_lock")
+		case strings.Contains(fn, "updateCurrentPlayerGameStatistics"):
+			m.c.Probe("updater_waits_for_engine_lock")
+		}
+	}
+}
+
 func (m *tableMon) adminEvent(kind string) {
 	switch kind {
 	case "pause", "close", "release":
@@ -195,8 +215,12 @@ func (m *tableMon) leaveInvoked(ids []string) {
 	if m.leavers == nil {
 		m.leavers = map[string]bool{}
 	}
+	if m.leaveNamed == nil {
+		m.leaveNamed = map[string]int{}
+	}
 	for _, id := range ids {
 		m.leavers[id] = true
+		m.leaveNamed[id]++
 	}
 }
 
@@ -244,6 +268,9 @@ func (m *tableMon) onErrorEvent(err error) {
 
 func (m *tableMon) onStateEvent(ev, status string, gc int) {
 	m.lifecycle(status, gc, "state:"+ev)
+	if ev == pt.TableStateEvent_GameUpdated {
+		m.engineOwnPublication()
+	}
 }
 
 func (m *tableMon) onActionEvent(a pt.TablePlayerGameAction) {
@@ -266,9 +293,13 @@ func (m *tableMon) onSnapshot(t *pt.Table, seq int64) {
 		ev = st.GameState.Status.CurrentEvent + "/" + st.GameState.Status.Round
 	}
 	defer func() { m.lastDeadlineSeen = st.CurrentActionEndAt }()
+	delete(m.snapByTask, simrt.CurName())
 	c.Logf("SNAP #%d %s gc=%d %s D%d/SB%d/BB%d gpi=%v end=%d |%s", t.UpdateSerial, st.Status, st.GameCount, ev, st.CurrentDealerSeat, st.CurrentSBSeat, st.CurrentBBSeat, st.GamePlayerIndexes, st.CurrentActionEndAt, playerLine(t))
 	m.tableInvariants(t, "snapshot")
 	m.lifecycle(string(st.Status), st.GameCount, "snapshot")
+	if hp := m.pendingSettleHand; hp != nil && (st.Status != pt.TableStateStatus_TableGameSettled || st.GameCount != hp.k) {
+		m.flushSettlement()
+	}
 	switch {
 	case st.Status == pt.TableStateStatus_TableGameOpened && st.GameState == nil:
 		if _, seen := m.hands[st.GameCount]; !seen || st.GameCount != m.lastOpened {
@@ -1117,29 +1148,76 @@ func (m *tableMon) checkDeadline(h *handRec, t *pt.Table) {
 		m.turnAt = t.UpdateAt
 		m.turnStale = m.lastDeadlineSeen
 		m.turnOK = false
+		m.turnOwn = false
 		m.turnOpen = true
 		m.turnDesc = fmt.Sprintf("hand %d round %s player %d (allowed %v, asked at %d)", h.k, gs.Status.Round, cp, p.AllowedActions, t.UpdateAt)
 	}
 	// A snapshot published by a concurrent, unrelated event may show the request before the
 	// deadline has been written (0); what must never appear is a wrong deadline, and the right
 	// one must have been published before the turn is over.
-	want := m.turnAt + int64(t.Meta.ActionTime)
+	// "The time of the request" is the time of the engine's own publication of the turn (the one its
+	// GameUpdated notification follows). Another caller's publication may show the new hand state
+	// earlier - while the engine's updater still waits for the engine lock under which it writes the
+	// deadline - with the previous turn's deadline (possibly extended meanwhile) or none.
+	action := int64(t.Meta.ActionTime)
 	c.Judged("C15.deadline_on_request")
 	ext := m.extensions[m.turnKey(gs)]
 	ext.total += m.floatingExtensions(m.turnKey(gs))
+	end := st.CurrentActionEndAt
+	if m.snapByTask == nil {
+		m.snapByTask = map[string]turnSnap{}
+	}
+	m.snapByTask[simrt.CurName()] = turnSnap{tk: tk, at: t.UpdateAt, end: end, fresh: true, action: action, ext: ext.total}
 	switch {
-	case st.CurrentActionEndAt == want:
-		m.turnOK = true
-	case ext.total > 0 && st.CurrentActionEndAt > want && st.CurrentActionEndAt <= want+ext.total:
-		// extended (every prefix sum of the extensions requested during this turn is acceptable)
-		m.turnOK = true
-	case st.CurrentActionEndAt == m.turnStale || (m.lastExtAtMs == c.NowMs() && st.CurrentActionEndAt == m.turnStale+m.lastExtD):
-		// the deadline of the previous turn, re-published by a concurrent event before the engine wrote the new one
+	case end == 0:
+		// not (or no longer: the round is being closed) written; a turn that ends without ever having
+		// shown its deadline is reported by closeTurn
 		c.Probe("request_published_before_deadline_written")
-	case st.CurrentActionEndAt != 0:
-		c.Viol("C15", "C15.deadline_wrong", nil, "%s: action time %ds, published deadline is %d (expected %d)", m.turnDesc, t.Meta.ActionTime, st.CurrentActionEndAt, want)
+	case m.turnOwn:
+		// after the engine's own publication: its time + action time, plus extensions
+		want := m.turnAt + action
+		if end >= want && end <= want+ext.total {
+			m.turnOK = true
+		} else {
+			c.Viol("C15", "C15.deadline_wrong", nil, "%s: action time %ds, the engine published the request at %d; the published deadline is %d (extensions requested or landing in this turn: %ds)", m.turnDesc, t.Meta.ActionTime, m.turnAt, end, ext.total)
+		}
+	case m.turnStale != 0 && end >= m.turnStale && end <= m.turnStale+ext.total:
+		// the deadline of the previous turn (extended meanwhile or not), re-published before the engine wrote the new one
+		c.Probe("request_published_before_deadline_written")
+	case end >= m.turnAt+action && end <= t.UpdateAt+action+ext.total:
+		// written at some moment between the first sight of the request and now
+		m.turnOK = true
 	default:
-		c.Probe("request_published_before_deadline_written")
+		c.Viol("C15", "C15.deadline_wrong", nil, "%s: action time %ds, published deadline is %d at %d (deadline before the turn %d, extensions requested or landing in this turn %ds)", m.turnDesc, t.Meta.ActionTime, end, t.UpdateAt, m.turnStale, ext.total)
+	}
+}
+
+type turnSnap struct {
+	tk      string
+	at, end int64
+	fresh   bool
+	action  int64
+	ext     int64
+}
+
+// engineOwnPublication: a GameUpdated notification follows the engine's own publication of a hand
+// state. If that publication was the latest snapshot and showed the current turn, it is the request.
+func (m *tableMon) engineOwnPublication() {
+	// the notification is sent by the task that has just published: its latest snapshot is the one meant
+	ls, ok := m.snapByTask[simrt.CurName()]
+	delete(m.snapByTask, simrt.CurName())
+	if !ok || ls.tk != m.lastTurnKey || !m.turnOpen || m.turnOwn {
+		return
+	}
+	m.turnOwn = true
+	m.turnAt = ls.at
+	want := ls.at + ls.action
+	if ls.end >= want && ls.end <= want+ls.ext {
+		m.turnOK = true
+		return
+	}
+	if h := m.cur; h != nil && h.tainted == "" {
+		m.c.Viol("C15", "C15.deadline_wrong", nil, "%s: action time %ds: the engine's own publication of the request at %d carries the deadline %d (extensions requested or landing in this turn: %ds)", m.turnDesc, ls.action, ls.at, ls.end, ls.ext)
 	}
 }
 
@@ -1204,21 +1282,96 @@ func (m *tableMon) onSettled(t *pt.Table, seq int64) {
 	c := m.c
 	st := t.State
 	h := m.hands[st.GameCount]
-	if h == nil || h.settled != nil {
+	if h == nil || h.settledFinal {
 		return
 	}
+	first := h.settled == nil
 	h.settled = t
-	h.settledMs = c.NowMs()
-	h.settledSeq = seq
-	m.handsSettled++
-	m.lastSettledMs = c.NowMs()
-	m.waitingNext = true
-	m.extraMs = 0
-	m.obligedOpen, m.obligedPause = m.continueConditions(t)
-	if h.phase != nil {
-		h.phase.closed = true
+	if first {
+		h.settledMs = c.NowMs()
+		h.settledSeq = seq
+		m.handsSettled++
+		m.lastSettledMs = c.NowMs()
+		m.waitingNext = true
+		m.extraMs = 0
+		if h.phase != nil {
+			h.phase.closed = true
+		}
+		m.checkGameBlindStable(h, t)
 	}
-	m.checkGameBlindStable(h, t)
+	m.obligedOpen, m.obligedPause = m.continueConditions(t)
+	// settleGame runs without the engine lock: a locked call (top-up, departure) that publishes the
+	// table while it is half way shows status "settled" with the results not applied yet. The verdict
+	// is therefore taken on the last publication of the settled hand: a failing one is held back and
+	// re-judged on the next, and reported when the table moves on.
+	vs := c.Capture(first, func() { m.judgeSettlement(h, t, seq) })
+	if len(vs) == 0 {
+		h.settledFinal = true
+		h.pendingSettle = nil
+		m.pendingSettleHand = nil
+		return
+	}
+	if !first {
+		c.Probe("settlement_rejudged_on_later_publication")
+	}
+	h.pendingSettle = vs
+	m.pendingSettleHand = h
+}
+
+// flushSettlement reports the held-back verdict of a settled hand once the table has moved on.
+func (m *tableMon) flushSettlement() {
+	h := m.pendingSettleHand
+	if h == nil {
+		return
+	}
+	m.pendingSettleHand = nil
+	if !h.settledFinal {
+		h.settledFinal = true
+		m.c.Emit(h.pendingSettle)
+		h.pendingSettle = nil
+	}
+}
+
+// checkResultCredit (C02): entry i's result is credited to the player entry i denoted at open and to
+// nobody else. A player whose bankroll moved, over the hand, not by the own result (nothing for a
+// bystander) but exactly by the result of another entry has been credited with that entry's result
+// (own top-ups accounted for; in-flight ones in every combination).
+func (m *tableMon) checkResultCredit(h *handRec, t *pt.Table, seq int64) {
+	c := m.c
+	gs := t.State.GameState
+	changed := map[string]int64{}
+	for _, r := range gs.Result.Players {
+		if r.Idx < 0 || r.Idx >= len(h.roster) {
+			return
+		}
+		changed[h.roster[r.Idx]] += r.Changed
+	}
+	c.Judged("C02.result_credit")
+	for _, p := range t.State.PlayerStates {
+		b0, known := h.bankAtOpen[p.PlayerID]
+		if !known {
+			continue
+		}
+		def, amb := m.topupsBetween(p.PlayerID, h.openSeq, seq)
+		own := changed[p.PlayerID]
+		if subsetSumHas(b0+def+own, amb, p.Bankroll) {
+			continue
+		}
+		for j, other := range h.roster {
+			if other == p.PlayerID || changed[other] == own {
+				continue
+			}
+			if subsetSumHas(b0+def+changed[other], amb, p.Bankroll) {
+				c.Viol("C02", "C02.result_credited_to_wrong_player", map[string]any{"receiver_dealt_in": indexOf(h.roster, p.PlayerID) >= 0}, "hand %d: %s (bankroll %d at open, own result %+d, own top-ups %d(+%v)) holds %d after settlement: exactly the result %+d of entry %d (%s) has been credited to %s", h.k, p.PlayerID, b0, own, def, amb, p.Bankroll, changed[other], j, other, p.PlayerID)
+				return
+			}
+		}
+	}
+}
+
+func (m *tableMon) judgeSettlement(h *handRec, t *pt.Table, seq int64) {
+	c := m.c
+	st := t.State
 	gs := st.GameState
 	if gs == nil || gs.Result == nil {
 		c.Viol("C11", "C11.settled_without_result", nil, "hand %d settled without a result", h.k)
@@ -1238,6 +1391,7 @@ func (m *tableMon) onSettled(t *pt.Table, seq int64) {
 		c.Viol("C11", "C11.result_entries", nil, "hand %d settled with %d result entries for %d participants", h.k, len(gs.Result.Players), len(h.roster))
 		return
 	}
+	m.checkResultCredit(h, t, seq)
 	// C01(b): per hand accounting keyed by the roster fixed at open
 	c.Judged("C01.hand_delta")
 	var sum int64
@@ -1263,6 +1417,11 @@ func (m *tableMon) onSettled(t *pt.Table, seq int64) {
 			hasTop := def != 0 || len(amb) > 0
 			c.Viol("C01", "C01.hand_delta", map[string]any{"topup_during_hand": hasTop, "missing_equals_topups": hasTop && h.bankAtOpen[id]+r.Changed == bank[id]},
 				"hand %d: %s had %d at open, result %+d, top-ups during the hand %d(+%v), but the bankroll after settlement is %d", h.k, id, h.bankAtOpen[id], r.Changed, def, amb, bank[id])
+			if !hasTop && r.Changed != 0 && bank[id] == h.bankAtOpen[id] {
+				// C02: entry i's result is credited to the player entry i denoted at open, and to nobody else
+				c.Judged("C02.result_credit")
+				c.Viol("C02", "C02.result_not_credited_to_entry_player", nil, "hand %d: entry %d was %s at open; its result %+d did not reach %s's bankroll (%d before and after)", h.k, r.Idx, id, r.Changed, id, bank[id])
+			}
 			return
 		}
 		if r.Final != gs.Players[r.Idx].Bankroll+r.Changed {
@@ -1284,6 +1443,7 @@ func (m *tableMon) onSettled(t *pt.Table, seq int64) {
 		}
 		def, amb := m.topupsBetween(id, h.openSeq, seq)
 		if !subsetSumHas(b0+def, amb, b1) {
+			c.Viol("C02", "C02.result_credited_to_bystander", nil, "hand %d: %s was not dealt in, yet the bankroll moved from %d to %d over the hand (own top-ups %d(+%v)): a result entry was credited to the wrong player", h.k, id, b0, b1, def, amb)
 			c.Viol("C01", "C01.bystander_changed", nil, "hand %d: %s was not dealt in; bankroll %d at open, %d after settlement, own top-ups %d(+%v)", h.k, id, b0, b1, def, amb)
 			return
 		}
